@@ -12,70 +12,620 @@ import (
 
 // GenReplyTypes.v (used by C05/C12, Model/Tags.v):
 //
-//   - reply_types: for every method of *client in csession.go that calls
-//     c.transport.send: the method name, the FcallType of the request message
-//     it builds (composite literal MessageTxxx{…}, directly or through a local
-//     variable), the FcallType of the reply it asserts (resp.(MessageRxxx)),
-//     and whether the failed assertion returns ErrUnexpectedMsg;
-//   - facts about transport.go read off the AST: the value send() compares
-//     resp.Type with before converting the reply into an error (Rerror), the
-//     capacity of the per-request reply/error channels, whether the owner
-//     loop's "tag not outstanding" branch panics, and whether send()'s two
-//     selects each have a `<-t.closed` and a `<-ctx.Done()` case.
+//   - reply_types: for every method of the client session type that calls the
+//     round tripper's send: the method name, the FcallType of the request
+//     message it builds, the FcallType of the reply it asserts, and that the
+//     failed assertion returns ErrUnexpectedMsg;
+//   - facts about the client transport read off the AST: which cases the two
+//     selects of send have and what they return, the value resp.Type is
+//     compared with before the reply becomes the call's error, the capacities
+//     of the per-request reply/error channels, whether the owner loop's "tag
+//     not outstanding" branch panics, whether the requests arm writes the frame
+//     itself or queues it, the guard of the failed-write arm, whether the
+//     reader's retry-on-timeout branch stops once the session is over.
 //
-// Any shape this generator does not recognise is an error: the tie to the
+// The generator recognises things by what they ARE, not by what they are
+// called: identifiers are resolved to go/types objects, struct fields are
+// found by their type and role (the channel of *request the loop receives
+// from, the `chan struct{}` that handle closes on return, ...), locals by
+// their defining statement, constants by value.  Control flow is read through
+// a small path walker (which statements run under "the lookup hit / missed",
+// "resp.Type == K / != K", "ok / !ok"), so if/else, early return with the
+// inverted condition, switch forms and independent statement order are all
+// the same to it.  Exported names (Fcall, Message, Tag, Channel, FcallType,
+// ErrClosed, ErrUnexpectedMsg, WriteFcall/ReadFcall, MessageT*/R*) are API
+// and are used as such.  What cannot be recovered is an error: the tie to the
 // source is then broken, which bin/check reports.
 func init() { register("GenReplyTypes.v", genReplyTypes) }
 
-// msgType returns the FcallType constant returned by (T).Type() for a named
-// message type T of package p9p.
-func (c *Ctx) msgType(name string) (uint64, string, error) {
-	fd := c.FuncDecl(name, "Type")
-	if fd == nil || fd.Body == nil || len(fd.Body.List) != 1 {
-		return 0, "", fmt.Errorf("no single-statement method (%s).Type()", name)
-	}
-	ret, ok := fd.Body.List[0].(*ast.ReturnStmt)
-	if !ok || len(ret.Results) != 1 {
-		return 0, "", fmt.Errorf("(%s).Type(): not a single return", name)
-	}
-	id, ok := ret.Results[0].(*ast.Ident)
-	if !ok {
-		return 0, "", fmt.Errorf("(%s).Type(): does not return a named constant", name)
-	}
-	k, ok := c.Pkg.Scope().Lookup(id.Name).(*types.Const)
-	if !ok {
-		return 0, "", fmt.Errorf("(%s).Type(): %s is not a package constant", name, id.Name)
-	}
-	v, ok := constant.Uint64Val(k.Val())
-	if !ok {
-		return 0, "", fmt.Errorf("(%s).Type(): %s has no uint64 value", name, id.Name)
-	}
-	return v, id.Name, nil
+// ---------------------------------------------------------------- resolution helpers
+
+type an struct {
+	c *Ctx
+	// defs: object of a local -> the expression it was defined from (x := e,
+	// var x = e), when it is assigned exactly once
+	defs map[types.Object]ast.Expr
+
+	fcallT, messageT, tagT, fcallTypeT types.Type
+	channelT                           types.Type
+	reqT, jobT, transT                 *types.Named // fcallRequest-like, fcallWrite-like, transport-like
+
+	reqResp, reqErr, reqCtx  *types.Var // fields of reqT by role
+	jobReq, jobFcall, jobErr *types.Var
+	trRequests, trCtx        *types.Var
+	trClosed, trShutdown     *types.Var
+
+	sendFD, handleFD *ast.FuncDecl
 }
 
-func compositeTypeName(e ast.Expr) (string, bool) {
-	cl, ok := e.(*ast.CompositeLit)
-	if !ok {
-		return "", false
+func unparen(e ast.Expr) ast.Expr {
+	for {
+		p, ok := e.(*ast.ParenExpr)
+		if !ok {
+			return e
+		}
+		e = p.X
 	}
-	id, ok := cl.Type.(*ast.Ident)
-	if !ok {
-		return "", false
-	}
-	return id.Name, true
 }
 
-func isSelector(e ast.Expr, parts ...string) bool {
-	for i := len(parts) - 1; i > 0; i-- {
-		s, ok := e.(*ast.SelectorExpr)
-		if !ok || s.Sel.Name != parts[i] {
+// obj: the object an identifier or the selected name of a selector denotes.
+func (a *an) obj(e ast.Expr) types.Object {
+	switch x := unparen(e).(type) {
+	case *ast.Ident:
+		if o := a.c.Info.Uses[x]; o != nil {
+			return o
+		}
+		return a.c.Info.Defs[x]
+	case *ast.SelectorExpr:
+		return a.c.Info.Uses[x.Sel]
+	}
+	return nil
+}
+
+func (a *an) typeOf(e ast.Expr) types.Type {
+	if tv, ok := a.c.Info.Types[e]; ok && tv.Type != nil {
+		return tv.Type
+	}
+	if o := a.obj(e); o != nil {
+		return o.Type()
+	}
+	return nil
+}
+
+// through follows a local back to the expression it was defined from.
+func (a *an) through(e ast.Expr) ast.Expr {
+	for i := 0; i < 8; i++ {
+		e = unparen(e)
+		id, ok := e.(*ast.Ident)
+		if !ok {
+			return e
+		}
+		d, ok := a.defs[a.obj(id)]
+		if !ok {
+			return e
+		}
+		e = d
+	}
+	return e
+}
+
+func (a *an) collectDefs() {
+	a.defs = map[types.Object]ast.Expr{}
+	count := map[types.Object]int{}
+	for _, f := range a.c.Files {
+		ast.Inspect(f, func(n ast.Node) bool {
+			switch s := n.(type) {
+			case *ast.AssignStmt:
+				for i, l := range s.Lhs {
+					id, ok := l.(*ast.Ident)
+					if !ok {
+						continue
+					}
+					o := a.obj(id)
+					if o == nil {
+						continue
+					}
+					count[o]++
+					if len(s.Lhs) == len(s.Rhs) {
+						a.defs[o] = s.Rhs[i]
+					} else {
+						count[o] += 2 // multi-value: not an alias
+					}
+				}
+			case *ast.ValueSpec:
+				for i, id := range s.Names {
+					o := a.c.Info.Defs[id]
+					if o == nil {
+						continue
+					}
+					if len(s.Values) == len(s.Names) {
+						count[o]++
+						a.defs[o] = s.Values[i]
+					}
+				}
+			case *ast.IncDecStmt:
+				if o := a.obj(s.X); o != nil {
+					count[o] += 2
+				}
+			case *ast.RangeStmt:
+				for _, e := range []ast.Expr{s.Key, s.Value} {
+					if e != nil {
+						if o := a.obj(e); o != nil {
+							count[o] += 2
+						}
+					}
+				}
+			}
+			return true
+		})
+	}
+	for o, n := range count {
+		if n != 1 {
+			delete(a.defs, o)
+		}
+	}
+}
+
+func isContext(t types.Type) bool { return t != nil && types.TypeString(t, nil) == "context.Context" }
+func isErrorT(t types.Type) bool  { return t != nil && types.TypeString(t, nil) == "error" }
+
+func chanElem(t types.Type) types.Type {
+	if t == nil {
+		return nil
+	}
+	if ch, ok := t.Underlying().(*types.Chan); ok {
+		return ch.Elem()
+	}
+	return nil
+}
+
+func ptrTo(t types.Type, n types.Type) bool {
+	p, ok := t.(*types.Pointer)
+	return ok && n != nil && types.Identical(p.Elem(), n)
+}
+
+func isEmptyStruct(t types.Type) bool {
+	s, ok := t.Underlying().(*types.Struct)
+	return ok && s.NumFields() == 0
+}
+
+// fieldWhere: the unique field of the named struct satisfying pred.
+func fieldWhere(n *types.Named, pred func(types.Type) bool) (*types.Var, int) {
+	s, ok := n.Underlying().(*types.Struct)
+	if !ok {
+		return nil, 0
+	}
+	var f *types.Var
+	k := 0
+	for i := 0; i < s.NumFields(); i++ {
+		if pred(s.Field(i).Type()) {
+			f = s.Field(i)
+			k++
+		}
+	}
+	return f, k
+}
+
+func (a *an) scopeType(name string) (types.Type, error) {
+	o := a.c.Pkg.Scope().Lookup(name)
+	tn, ok := o.(*types.TypeName)
+	if !ok {
+		return nil, fmt.Errorf("exported type %s not found", name)
+	}
+	return tn.Type(), nil
+}
+
+// namedStructs: every named struct type declared in the package.
+func (a *an) namedStructs() []*types.Named {
+	var out []*types.Named
+	sc := a.c.Pkg.Scope()
+	for _, n := range sc.Names() {
+		if tn, ok := sc.Lookup(n).(*types.TypeName); ok {
+			if nt, ok := tn.Type().(*types.Named); ok {
+				if _, ok := nt.Underlying().(*types.Struct); ok {
+					out = append(out, nt)
+				}
+			}
+		}
+	}
+	return out
+}
+
+func (a *an) setup() error {
+	var err error
+	if a.fcallT, err = a.scopeType("Fcall"); err != nil {
+		return err
+	}
+	if a.messageT, err = a.scopeType("Message"); err != nil {
+		return err
+	}
+	if a.tagT, err = a.scopeType("Tag"); err != nil {
+		return err
+	}
+	if a.fcallTypeT, err = a.scopeType("FcallType"); err != nil {
+		return err
+	}
+	if a.channelT, err = a.scopeType("Channel"); err != nil {
+		return err
+	}
+	isChanPtrFcall := func(t types.Type) bool { e := chanElem(t); return e != nil && ptrTo(e, a.fcallT) }
+	isChanErr := func(t types.Type) bool { e := chanElem(t); return e != nil && isErrorT(e) }
+	// the request: the struct with one `chan *Fcall` and one `chan error` field
+	for _, n := range a.namedStructs() {
+		f1, k1 := fieldWhere(n, isChanPtrFcall)
+		f2, k2 := fieldWhere(n, isChanErr)
+		if k1 == 1 && k2 == 1 {
+			if a.reqT != nil {
+				return fmt.Errorf("two struct types look like the per-call request (a `chan *Fcall` and a `chan error` field): %s and %s", a.reqT.Obj().Name(), n.Obj().Name())
+			}
+			a.reqT, a.reqResp, a.reqErr = n, f1, f2
+		}
+	}
+	if a.reqT == nil {
+		return fmt.Errorf("no struct type with one `chan *Fcall` and one `chan error` field (the per-call request) found")
+	}
+	a.reqCtx, _ = fieldWhere(a.reqT, isContext)
+	isPtrReq := func(t types.Type) bool { return ptrTo(t, a.reqT) }
+	// the queued frame: the struct with a *request, a *Fcall and an error
+	for _, n := range a.namedStructs() {
+		f1, k1 := fieldWhere(n, isPtrReq)
+		f2, k2 := fieldWhere(n, func(t types.Type) bool { return ptrTo(t, a.fcallT) })
+		f3, k3 := fieldWhere(n, isErrorT)
+		if k1 == 1 && k2 == 1 && k3 == 1 {
+			if a.jobT != nil {
+				return fmt.Errorf("two struct types look like the queued frame (*request, *Fcall, error)")
+			}
+			a.jobT, a.jobReq, a.jobFcall, a.jobErr = n, f1, f2, f3
+		}
+	}
+	// the transport: the struct with a `chan *request` field
+	for _, n := range a.namedStructs() {
+		f, k := fieldWhere(n, func(t types.Type) bool { e := chanElem(t); return e != nil && isPtrReq(e) })
+		if k == 1 {
+			if a.transT != nil {
+				return fmt.Errorf("two struct types have a `chan *%s` field", a.reqT.Obj().Name())
+			}
+			a.transT, a.trRequests = n, f
+		}
+	}
+	if a.transT == nil {
+		return fmt.Errorf("no struct type with a `chan *%s` field (the client transport) found", a.reqT.Obj().Name())
+	}
+	a.trCtx, _ = fieldWhere(a.transT, isContext)
+	// its methods: send by signature, handle as the method started with `go`
+	recvIs := func(fd *ast.FuncDecl, n *types.Named) bool {
+		if fd.Recv == nil || len(fd.Recv.List) != 1 {
 			return false
 		}
-		e = s.X
+		t := a.typeOf(fd.Recv.List[0].Type)
+		if p, ok := t.(*types.Pointer); ok {
+			t = p.Elem()
+		}
+		return t != nil && types.Identical(t, n)
 	}
-	id, ok := e.(*ast.Ident)
-	return ok && id.Name == parts[0]
+	started := map[types.Object]bool{}
+	for _, f := range a.c.Files {
+		ast.Inspect(f, func(n ast.Node) bool {
+			if g, ok := n.(*ast.GoStmt); ok {
+				if o := a.obj(g.Call.Fun); o != nil {
+					started[o] = true
+				}
+			}
+			return true
+		})
+	}
+	for _, f := range a.c.Files {
+		for _, d := range f.Decls {
+			fd, ok := d.(*ast.FuncDecl)
+			if !ok || fd.Body == nil || !recvIs(fd, a.transT) {
+				continue
+			}
+			o, _ := a.c.Info.Defs[fd.Name].(*types.Func)
+			if o == nil {
+				continue
+			}
+			if a.isSendSig(o.Type().(*types.Signature)) {
+				if a.sendFD != nil {
+					return fmt.Errorf("two methods of %s have the signature of send", a.transT.Obj().Name())
+				}
+				a.sendFD = fd
+			}
+			if started[o] {
+				if a.handleFD != nil {
+					return fmt.Errorf("two methods of %s are started as goroutines", a.transT.Obj().Name())
+				}
+				a.handleFD = fd
+			}
+		}
+	}
+	if a.sendFD == nil {
+		return fmt.Errorf("%s has no method (context.Context, Message) (Message, error)", a.transT.Obj().Name())
+	}
+	if a.handleFD == nil {
+		return fmt.Errorf("no method of %s is started with `go`", a.transT.Obj().Name())
+	}
+	// closed = the `chan struct{}` field handle closes; shutdown = the other one
+	var cs []*types.Var
+	st := a.transT.Underlying().(*types.Struct)
+	for i := 0; i < st.NumFields(); i++ {
+		if e := chanElem(st.Field(i).Type()); e != nil && isEmptyStruct(e) {
+			cs = append(cs, st.Field(i))
+		}
+	}
+	if len(cs) != 2 {
+		return fmt.Errorf("%s: expected two `chan struct{}` fields (closed, shutdown), found %d", a.transT.Obj().Name(), len(cs))
+	}
+	closedIn := map[*types.Var]bool{}
+	ast.Inspect(a.handleFD.Body, func(n ast.Node) bool {
+		if call, ok := n.(*ast.CallExpr); ok && len(call.Args) == 1 {
+			if id, ok := unparen(call.Fun).(*ast.Ident); ok {
+				if _, isB := a.obj(id).(*types.Builtin); isB && id.Name == "close" {
+					if v, ok := a.obj(call.Args[0]).(*types.Var); ok {
+						closedIn[v] = true
+					}
+				}
+			}
+		}
+		return true
+	})
+	switch {
+	case closedIn[cs[0]] && !closedIn[cs[1]]:
+		a.trClosed, a.trShutdown = cs[0], cs[1]
+	case closedIn[cs[1]] && !closedIn[cs[0]]:
+		a.trClosed, a.trShutdown = cs[1], cs[0]
+	default:
+		return fmt.Errorf("%s.%s: cannot tell which `chan struct{}` field is closed when the loop returns", a.transT.Obj().Name(), a.handleFD.Name.Name)
+	}
+	return nil
 }
+
+func (a *an) isSendSig(s *types.Signature) bool {
+	return s.Params().Len() == 2 && s.Results().Len() == 2 &&
+		isContext(s.Params().At(0).Type()) && types.Identical(s.Params().At(1).Type(), a.messageT) &&
+		types.Identical(s.Results().At(0).Type(), a.messageT) && isErrorT(s.Results().At(1).Type())
+}
+
+func (a *an) isNil(e ast.Expr) bool {
+	_, ok := a.obj(e).(*types.Nil)
+	return ok
+}
+
+func (a *an) isBuiltinCall(e ast.Expr, name string) (*ast.CallExpr, bool) {
+	call, ok := unparen(e).(*ast.CallExpr)
+	if !ok {
+		return nil, false
+	}
+	id, ok := unparen(call.Fun).(*ast.Ident)
+	if !ok || id.Name != name {
+		return nil, false
+	}
+	_, isB := a.obj(id).(*types.Builtin)
+	return call, isB
+}
+
+// recvOf: `<-ch` (as expression statement, or the rhs of an assignment) -> ch and the bound variable
+func (a *an) commRecv(s ast.Stmt) (ch ast.Expr, bound types.Object, ok bool) {
+	var e ast.Expr
+	switch x := s.(type) {
+	case *ast.ExprStmt:
+		e = x.X
+	case *ast.AssignStmt:
+		if len(x.Rhs) != 1 {
+			return nil, nil, false
+		}
+		e = x.Rhs[0]
+		if len(x.Lhs) >= 1 {
+			bound = a.obj(x.Lhs[0])
+		}
+	default:
+		return nil, nil, false
+	}
+	u, isU := unparen(e).(*ast.UnaryExpr)
+	if !isU || u.Op != token.ARROW {
+		return nil, nil, false
+	}
+	return unparen(u.X), bound, true
+}
+
+// isDoneOf: e is X.Done() with X of type context.Context; returns X
+func (a *an) doneOf(e ast.Expr) (ast.Expr, bool) {
+	call, ok := unparen(e).(*ast.CallExpr)
+	if !ok || len(call.Args) != 0 {
+		return nil, false
+	}
+	sel, ok := unparen(call.Fun).(*ast.SelectorExpr)
+	if !ok || sel.Sel.Name != "Done" || !isContext(a.typeOf(sel.X)) {
+		return nil, false
+	}
+	return sel.X, true
+}
+
+// isField: e is a selector denoting exactly this struct field
+func (a *an) isField(e ast.Expr, f *types.Var) bool {
+	sel, ok := unparen(e).(*ast.SelectorExpr)
+	return ok && f != nil && a.c.Info.Uses[sel.Sel] == f
+}
+
+// fieldOf: e (through local aliases) is X.f for field f; returns X
+func (a *an) fieldOf(e ast.Expr, f *types.Var) (ast.Expr, bool) {
+	e = a.through(e)
+	if !a.isField(e, f) {
+		return nil, false
+	}
+	return e.(*ast.SelectorExpr).X, true
+}
+
+// isVar: e denotes the variable o, directly or through single-assignment local aliases
+func (a *an) isVar(e ast.Expr, o types.Object) bool {
+	if o == nil {
+		return false
+	}
+	for i := 0; i < 8; i++ {
+		e = unparen(e)
+		if a.obj(e) == o {
+			return true
+		}
+		id, ok := e.(*ast.Ident)
+		if !ok {
+			return false
+		}
+		d, ok := a.defs[a.obj(id)]
+		if !ok {
+			return false
+		}
+		e = d
+	}
+	return false
+}
+
+// ---------------------------------------------------------------- path walker
+
+// A condition atom: +1 the atom holds, -1 it does not, 0 unrelated.
+type atomFn func(e ast.Expr) int
+
+const dead = 2
+
+func combine(cond, c int) int {
+	switch {
+	case cond == dead:
+		return dead
+	case c == 0:
+		return cond
+	case cond == 0 || cond == c:
+		return c
+	}
+	return dead
+}
+
+// negatable wraps an atom so that !e, e && true-ish forms are understood.
+func withNot(f atomFn) atomFn {
+	var g atomFn
+	g = func(e ast.Expr) int {
+		e = unparen(e)
+		if u, ok := e.(*ast.UnaryExpr); ok && u.Op == token.NOT {
+			return -g(u.X)
+		}
+		return f(e)
+	}
+	return g
+}
+
+type visitFn func(s ast.Stmt, cond int)
+
+// walk visits every simple statement of the list together with what is known
+// about the atom on the path reaching it; it returns whether control can fall
+// off the end and what is known then.  return/continue/break/goto/panic(...)
+// end a path.
+func (a *an) walk(stmts []ast.Stmt, cond int, atom atomFn, visit visitFn) (falls bool, after int) {
+	for _, s := range stmts {
+		if cond == dead {
+			return false, dead
+		}
+		switch x := s.(type) {
+		case *ast.ReturnStmt, *ast.BranchStmt:
+			visit(s, cond)
+			return false, cond
+		case *ast.BlockStmt:
+			f, c := a.walk(x.List, cond, atom, visit)
+			if !f {
+				return false, c
+			}
+			cond = c
+		case *ast.LabeledStmt:
+			f, c := a.walk([]ast.Stmt{x.Stmt}, cond, atom, visit)
+			if !f {
+				return false, c
+			}
+			cond = c
+		case *ast.IfStmt:
+			if x.Init != nil {
+				visit(x.Init, cond)
+			}
+			c := atom(x.Cond)
+			tf, tc := a.walk(x.Body.List, combine(cond, c), atom, visit)
+			ef, ec := true, combine(cond, -c)
+			if x.Else != nil {
+				ef, ec = a.walk([]ast.Stmt{x.Else}, combine(cond, -c), atom, visit)
+			}
+			if tc == dead {
+				tf = false
+			}
+			if ec == dead {
+				ef = false
+			}
+			switch {
+			case tf && ef:
+				if tc != ec {
+					tc = cond
+				}
+				cond = tc
+			case tf:
+				cond = tc
+			case ef:
+				cond = ec
+			default:
+				return false, cond
+			}
+		case *ast.SwitchStmt:
+			if x.Init != nil {
+				visit(x.Init, cond)
+			}
+			rest := cond // what is known when no earlier case matched
+			anyFalls, fallCond, first := false, 0, true
+			hasDefault := false
+			merge := func(f bool, c int) {
+				if !f || c == dead {
+					return
+				}
+				if first {
+					fallCond, first = c, false
+				} else if fallCond != c {
+					fallCond = cond
+				}
+				anyFalls = true
+			}
+			var deflt *ast.CaseClause
+			for _, cl := range x.Body.List {
+				cc := cl.(*ast.CaseClause)
+				if cc.List == nil {
+					hasDefault, deflt = true, cc
+					continue
+				}
+				c := 0
+				if len(cc.List) == 1 {
+					if x.Tag == nil {
+						c = atom(cc.List[0])
+					} else {
+						c = atom(&ast.BinaryExpr{X: x.Tag, Op: token.EQL, Y: cc.List[0]})
+					}
+				}
+				f, fc := a.walk(cc.Body, combine(rest, c), atom, visit)
+				merge(f, fc)
+				rest = combine(rest, -c)
+			}
+			if hasDefault {
+				f, fc := a.walk(deflt.Body, rest, atom, visit)
+				merge(f, fc)
+			} else {
+				merge(true, rest)
+			}
+			if !anyFalls {
+				return false, cond
+			}
+			cond = fallCond
+		case *ast.ExprStmt:
+			visit(s, cond)
+			if a.containsPanic([]ast.Stmt{s}) { // panic(…), log.Fatal*/Panic*, os.Exit: the path ends here
+				return false, cond
+			}
+		default:
+			visit(s, cond)
+		}
+	}
+	return true, cond
+}
+
+// ---------------------------------------------------------------- csession.go
 
 type replyRow struct {
 	method       string
@@ -86,111 +636,87 @@ type replyRow struct {
 	unexpectedOK bool
 }
 
-func clientMethod(c *Ctx, fd *ast.FuncDecl) (*replyRow, error) {
+// msgTypeOf: the FcallType value returned by (T).Type() for message type T.
+func (a *an) msgTypeOf(t types.Type) (uint64, string, error) {
+	n, ok := t.(*types.Named)
+	if !ok {
+		return 0, "", fmt.Errorf("%v is not a named message type", t)
+	}
+	for _, f := range a.c.Files {
+		for _, d := range f.Decls {
+			fd, ok := d.(*ast.FuncDecl)
+			if !ok || fd.Recv == nil || fd.Body == nil || len(fd.Recv.List) != 1 {
+				continue
+			}
+			o, _ := a.c.Info.Defs[fd.Name].(*types.Func)
+			if o == nil {
+				continue
+			}
+			sig := o.Type().(*types.Signature)
+			if sig.Params().Len() != 0 || sig.Results().Len() != 1 || !types.Identical(sig.Results().At(0).Type(), a.fcallTypeT) {
+				continue
+			}
+			rt := sig.Recv().Type()
+			if p, ok := rt.(*types.Pointer); ok {
+				rt = p.Elem()
+			}
+			if !types.Identical(rt, n) {
+				continue
+			}
+			if len(fd.Body.List) != 1 {
+				return 0, "", fmt.Errorf("(%s).%s(): not a single return", n.Obj().Name(), fd.Name.Name)
+			}
+			ret, ok := fd.Body.List[0].(*ast.ReturnStmt)
+			if !ok || len(ret.Results) != 1 {
+				return 0, "", fmt.Errorf("(%s).%s(): not a single return", n.Obj().Name(), fd.Name.Name)
+			}
+			tv := a.c.Info.Types[ret.Results[0]]
+			if tv.Value == nil {
+				return 0, "", fmt.Errorf("(%s).%s(): does not return a constant", n.Obj().Name(), fd.Name.Name)
+			}
+			v, ok := constant.Uint64Val(tv.Value)
+			if !ok {
+				return 0, "", fmt.Errorf("(%s).%s(): constant has no uint64 value", n.Obj().Name(), fd.Name.Name)
+			}
+			return v, n.Obj().Name(), nil
+		}
+	}
+	return 0, "", fmt.Errorf("message type %s has no method returning FcallType", n.Obj().Name())
+}
+
+// isSendCall: a call of a method/func with send's signature (the round tripper's send)
+func (a *an) isSendCall(call *ast.CallExpr) bool {
+	f, ok := a.obj(call.Fun).(*types.Func)
+	if !ok || !a.isSendSig(f.Type().(*types.Signature)) {
+		return false
+	}
+	// ... invoked on the transport itself or on an interface the transport implements
+	sel, ok := unparen(call.Fun).(*ast.SelectorExpr)
+	if !ok {
+		return false
+	}
+	rt := a.typeOf(sel.X)
+	if rt == nil {
+		return false
+	}
+	pt := types.NewPointer(a.transT)
+	if types.Identical(rt, pt) || types.Identical(rt, a.transT) {
+		return true
+	}
+	if it, ok := rt.Underlying().(*types.Interface); ok {
+		return types.Implements(pt, it)
+	}
+	return false
+}
+
+func (a *an) clientMethod(fd *ast.FuncDecl) (*replyRow, error) {
 	name := fd.Name.Name
-	locals := map[string]string{} // local variable -> composite literal type
-	var row *replyRow
-	var sends, asserts int
-	var failure error
-	fail := func(format string, a ...interface{}) {
-		if failure == nil {
-			failure = fmt.Errorf("client.%s: "+format, append([]interface{}{name}, a...)...)
-		}
+	fail := func(format string, args ...interface{}) (*replyRow, error) {
+		return nil, fmt.Errorf("client method %s: "+format, append([]interface{}{name}, args...)...)
 	}
-	stmts := fd.Body.List
-	for i, st := range stmts {
-		as, ok := st.(*ast.AssignStmt)
-		if !ok || len(as.Rhs) != 1 {
-			continue
-		}
-		if tn, ok := compositeTypeName(as.Rhs[0]); ok && len(as.Lhs) == 1 {
-			if id, ok := as.Lhs[0].(*ast.Ident); ok {
-				locals[id.Name] = tn
-			}
-			continue
-		}
-		if call, ok := as.Rhs[0].(*ast.CallExpr); ok && isSelector(call.Fun, "c", "transport", "send") {
-			sends++
-			if len(call.Args) != 2 || len(as.Lhs) != 2 {
-				fail("send call of unexpected arity")
-				continue
-			}
-			if id, ok := as.Lhs[0].(*ast.Ident); !ok || id.Name != "resp" {
-				fail("send result is not bound to `resp`")
-			}
-			if id, ok := call.Args[0].(*ast.Ident); !ok || id.Name != "ctx" {
-				fail("send is not called with the method's own ctx")
-			}
-			tn, ok := compositeTypeName(call.Args[1])
-			if !ok {
-				if id, isID := call.Args[1].(*ast.Ident); isID {
-					tn, ok = locals[id.Name]
-				}
-			}
-			if !ok {
-				fail("request argument of send is neither a composite literal nor a local bound to one")
-				continue
-			}
-			v, _, err := c.msgType(tn)
-			if err != nil {
-				fail("%v", err)
-				continue
-			}
-			row = &replyRow{method: name, reqName: tn, reqType: v}
-			// the statement after the send must be `if err != nil { return …, err }`
-			if i+1 >= len(stmts) {
-				fail("nothing follows the send")
-				continue
-			}
-			ifs, ok := stmts[i+1].(*ast.IfStmt)
-			if !ok || !isErrNotNil(ifs.Cond) || !returnsLast(ifs.Body, "err") {
-				fail("send is not followed by `if err != nil { return …, err }`")
-			}
-			continue
-		}
-		if ta, ok := as.Rhs[0].(*ast.TypeAssertExpr); ok {
-			if id, isID := ta.X.(*ast.Ident); !isID || id.Name != "resp" {
-				continue
-			}
-			asserts++
-			if row == nil {
-				fail("type assertion on resp before the send")
-				continue
-			}
-			tid, ok := ta.Type.(*ast.Ident)
-			if !ok || len(as.Lhs) != 2 {
-				fail("type assertion on resp of unexpected shape")
-				continue
-			}
-			if okid, isID := as.Lhs[1].(*ast.Ident); !isID || okid.Name != "ok" {
-				fail("type assertion on resp is not of the comma-ok form")
-				continue
-			}
-			v, _, err := c.msgType(tid.Name)
-			if err != nil {
-				fail("%v", err)
-				continue
-			}
-			row.repName, row.repType = tid.Name, v
-			if i+1 >= len(stmts) {
-				fail("nothing follows the type assertion")
-				continue
-			}
-			ifs, ok := stmts[i+1].(*ast.IfStmt)
-			if !ok || !isNotOk(ifs.Cond) || ifs.Else != nil {
-				fail("type assertion is not followed by `if !ok { … }`")
-				continue
-			}
-			row.unexpectedOK = returnsLast(ifs.Body, "ErrUnexpectedMsg")
-			if !row.unexpectedOK {
-				fail("`if !ok` does not return ErrUnexpectedMsg as the error")
-			}
-		}
-	}
-	// any other use of c.transport.send (e.g. inside an expression) is unrecognised
 	total := 0
 	ast.Inspect(fd.Body, func(n ast.Node) bool {
-		if call, ok := n.(*ast.CallExpr); ok && isSelector(call.Fun, "c", "transport", "send") {
+		if call, ok := n.(*ast.CallExpr); ok && a.isSendCall(call) {
 			total++
 		}
 		return true
@@ -198,440 +724,222 @@ func clientMethod(c *Ctx, fd *ast.FuncDecl) (*replyRow, error) {
 	if total == 0 {
 		return nil, nil
 	}
-	if failure != nil {
-		return nil, failure
+	if total != 1 {
+		return fail("%d calls of send (shape not modelled)", total)
 	}
-	if total != 1 || sends != 1 || asserts != 1 || row == nil || row.repName == "" {
-		return nil, fmt.Errorf("client.%s: expected exactly one `resp, err := c.transport.send(ctx, MessageT…)` and one `…, ok := resp.(MessageR…)` at statement level (found %d send calls, %d recognised, %d assertions)", name, total, sends, asserts)
+	mo, _ := a.c.Info.Defs[fd.Name].(*types.Func)
+	sig := mo.Type().(*types.Signature)
+	if sig.Params().Len() == 0 || !isContext(sig.Params().At(0).Type()) {
+		return fail("first parameter is not a context.Context")
 	}
+	ctxParam := sig.Params().At(0)
+	errUnexpected := a.c.Pkg.Scope().Lookup("ErrUnexpectedMsg")
+	if errUnexpected == nil {
+		return fail("ErrUnexpectedMsg not found")
+	}
+
+	// the send statement, at statement level of the body
+	var sendIdx = -1
+	var respObj, errObj types.Object
+	var sendCall *ast.CallExpr
+	stmts := fd.Body.List
+	for i, st := range stmts {
+		var as *ast.AssignStmt
+		switch x := st.(type) {
+		case *ast.AssignStmt:
+			as = x
+		case *ast.IfStmt: // if resp, err := send(...); err != nil {...}  is not accepted: resp would be out of scope
+		}
+		if as == nil || len(as.Rhs) != 1 || len(as.Lhs) != 2 {
+			continue
+		}
+		if call, ok := unparen(as.Rhs[0]).(*ast.CallExpr); ok && a.isSendCall(call) {
+			sendIdx, sendCall = i, call
+			respObj, errObj = a.obj(as.Lhs[0]), a.obj(as.Lhs[1])
+		}
+	}
+	if sendIdx < 0 || respObj == nil || errObj == nil {
+		return fail("the call of send is not a statement `resp, err := …send(ctx, msg)`")
+	}
+	if len(sendCall.Args) != 2 || a.obj(sendCall.Args[0]) != types.Object(ctxParam) {
+		return fail("send is not called with the method's own context")
+	}
+	reqExpr := a.through(sendCall.Args[1])
+	cl, ok := reqExpr.(*ast.CompositeLit)
+	if !ok {
+		return fail("the request passed to send is neither a composite literal nor a local bound to one")
+	}
+	reqV, reqName, err := a.msgTypeOf(a.typeOf(cl))
+	if err != nil {
+		return fail("%v", err)
+	}
+	row := &replyRow{method: name, reqName: reqName, reqType: reqV}
+
+	// after the send: under err != nil every return hands back err
+	errNonNil := withNot(func(e ast.Expr) int {
+		b, ok := e.(*ast.BinaryExpr)
+		if !ok || (b.Op != token.NEQ && b.Op != token.EQL) {
+			return 0
+		}
+		x, y := b.X, b.Y
+		if a.isNil(x) {
+			x, y = y, x
+		}
+		if !a.isNil(y) || a.obj(x) != errObj {
+			return 0
+		}
+		if b.Op == token.NEQ {
+			return 1
+		}
+		return -1
+	})
+	lastIs := func(ret *ast.ReturnStmt, o types.Object) bool {
+		return len(ret.Results) > 0 && a.obj(ret.Results[len(ret.Results)-1]) == o
+	}
+	rest := stmts[sendIdx+1:]
+	nErrRet, badErrRet := 0, false
+	var assertStmt ast.Stmt
+	var assertCond int
+	var okObj types.Object
+	var typeSwitch *ast.TypeSwitchStmt
+	a.walk(rest, 0, errNonNil, func(s ast.Stmt, cond int) {
+		if ret, ok := s.(*ast.ReturnStmt); ok && cond == 1 {
+			nErrRet++
+			if !lastIs(ret, errObj) {
+				badErrRet = true
+			}
+		}
+		// the type assertion on resp
+		switch x := s.(type) {
+		case *ast.AssignStmt:
+			if len(x.Rhs) == 1 {
+				if ta, ok := unparen(x.Rhs[0]).(*ast.TypeAssertExpr); ok && ta.Type != nil && a.obj(ta.X) == respObj {
+					if assertStmt != nil {
+						badErrRet = true
+					}
+					assertStmt, assertCond = s, cond
+					if len(x.Lhs) == 2 {
+						okObj = a.obj(x.Lhs[1])
+					}
+					if v, nme, err := a.msgTypeOf(a.typeOf(ta.Type)); err == nil {
+						row.repType, row.repName = v, nme
+					}
+				}
+			}
+		case *ast.TypeSwitchStmt:
+			typeSwitch = x
+			assertCond = cond
+		}
+	})
+	if nErrRet == 0 || badErrRet {
+		return fail("after the send there is no `if err != nil { return …, err }` (or a return on that path does not hand back err)")
+	}
+	if typeSwitch != nil && assertStmt == nil {
+		return a.clientTypeSwitch(row, typeSwitch, respObj, errUnexpected, fail)
+	}
+	if assertStmt == nil || okObj == nil || row.repName == "" {
+		return fail("no comma-ok type assertion of the reply to a message type found")
+	}
+	if assertCond == 1 {
+		return fail("the reply is asserted on the path where send failed")
+	}
+	// under !ok every return hands back ErrUnexpectedMsg; there is one
+	okAtom := withNot(func(e ast.Expr) int {
+		if a.obj(e) == okObj {
+			return 1
+		}
+		return 0
+	})
+	nMiss, badMiss, nHit := 0, false, 0
+	seen := false
+	a.walk(rest, 0, func(e ast.Expr) int {
+		if c := okAtom(e); c != 0 {
+			return c
+		}
+		return 0
+	}, func(s ast.Stmt, cond int) {
+		if s == assertStmt {
+			seen = true
+			return
+		}
+		if !seen {
+			return
+		}
+		if ret, ok := s.(*ast.ReturnStmt); ok {
+			switch cond {
+			case -1:
+				nMiss++
+				if !lastIs(ret, errUnexpected) {
+					badMiss = true
+				}
+			case 1:
+				nHit++
+			case 0:
+				// a return reached whether or not the assertion held: it must not claim success for a wrong type
+				if !lastIs(ret, errUnexpected) {
+					nHit++
+				} else {
+					nMiss++
+				}
+			}
+		}
+	})
+	if nMiss == 0 || badMiss {
+		return fail("a failed type assertion of the reply does not return ErrUnexpectedMsg as the error")
+	}
+	// if the assertion was in an if-init (`if x, ok := resp.(T); ok {…}`) the walker saw it through visit(Init)
+	row.unexpectedOK = true
 	return row, nil
 }
 
-func isErrNotNil(e ast.Expr) bool {
-	b, ok := e.(*ast.BinaryExpr)
-	if !ok || b.Op != token.NEQ {
-		return false
+func (a *an) clientTypeSwitch(row *replyRow, ts *ast.TypeSwitchStmt, respObj, errUnexpected types.Object, fail func(string, ...interface{}) (*replyRow, error)) (*replyRow, error) {
+	var x ast.Expr
+	switch s := ts.Assign.(type) {
+	case *ast.AssignStmt:
+		x = s.Rhs[0]
+	case *ast.ExprStmt:
+		x = s.X
 	}
-	x, ok1 := b.X.(*ast.Ident)
-	y, ok2 := b.Y.(*ast.Ident)
-	return ok1 && ok2 && x.Name == "err" && y.Name == "nil"
-}
-
-func isNotOk(e ast.Expr) bool {
-	u, ok := e.(*ast.UnaryExpr)
-	if !ok || u.Op != token.NOT {
-		return false
+	ta, ok := unparen(x).(*ast.TypeAssertExpr)
+	if !ok || a.obj(ta.X) != respObj {
+		return fail("type switch is not on the reply")
 	}
-	x, ok := u.X.(*ast.Ident)
-	return ok && x.Name == "ok"
-}
-
-// returnsLast: the block is exactly one return statement whose last result is
-// the identifier name.
-func returnsLast(b *ast.BlockStmt, name string) bool {
-	if b == nil || len(b.List) != 1 {
-		return false
-	}
-	ret, ok := b.List[0].(*ast.ReturnStmt)
-	if !ok || len(ret.Results) == 0 {
-		return false
-	}
-	id, ok := ret.Results[len(ret.Results)-1].(*ast.Ident)
-	return ok && id.Name == name
-}
-
-// ---- facts about transport.go
-
-func containsPanic(n ast.Node) bool {
-	found := false
-	ast.Inspect(n, func(x ast.Node) bool {
-		if call, ok := x.(*ast.CallExpr); ok {
-			if id, ok := call.Fun.(*ast.Ident); ok && id.Name == "panic" {
-				found = true
-			}
-			if s, ok := call.Fun.(*ast.SelectorExpr); ok {
-				if id, ok := s.X.(*ast.Ident); ok && id.Name == "log" && (strings.HasPrefix(s.Sel.Name, "Fatal") || strings.HasPrefix(s.Sel.Name, "Panic")) {
-					found = true
-				}
-				if id, ok := s.X.(*ast.Ident); ok && id.Name == "os" && s.Sel.Name == "Exit" {
-					found = true
-				}
-			}
-		}
-		return true
-	})
-	return found
-}
-
-// unknownTagPanics looks in transport.handle for
-//
-//	case b := <-responses:
-//	    req, ok := outstanding[b.Tag]
-//	    if !ok { BODY }
-//
-// and reports whether BODY can panic / exit the process.
-func unknownTagPanics(c *Ctx) (bool, error) {
-	fd := c.FuncDecl("transport", "handle")
-	if fd == nil {
-		return false, fmt.Errorf("transport.handle not found")
-	}
-	var res *bool
-	var err error
-	ast.Inspect(fd.Body, func(n ast.Node) bool {
-		cc, ok := n.(*ast.CommClause)
-		if !ok || cc.Comm == nil {
-			return true
-		}
-		as, ok := cc.Comm.(*ast.AssignStmt)
-		if !ok || len(as.Rhs) != 1 {
-			return true
-		}
-		u, ok := as.Rhs[0].(*ast.UnaryExpr)
-		if !ok || u.Op != token.ARROW {
-			return true
-		}
-		if id, ok := u.X.(*ast.Ident); !ok || id.Name != "responses" {
-			return true
-		}
-		// found the clause
-		if len(cc.Body) < 2 {
-			err = fmt.Errorf("transport.handle: `case b := <-responses` has an unexpected body")
-			return false
-		}
-		look, ok := cc.Body[0].(*ast.AssignStmt)
-		if !ok || len(look.Lhs) != 2 || len(look.Rhs) != 1 {
-			err = fmt.Errorf("transport.handle: first statement of the responses case is not `req, ok := outstanding[b.Tag]`")
-			return false
-		}
-		ix, ok := look.Rhs[0].(*ast.IndexExpr)
-		if !ok || !isSelector(ix.Index, "b", "Tag") {
-			err = fmt.Errorf("transport.handle: the responses case does not look the reply up by b.Tag")
-			return false
-		}
-		if id, ok := ix.X.(*ast.Ident); !ok || id.Name != "outstanding" {
-			err = fmt.Errorf("transport.handle: the responses case does not index `outstanding`")
-			return false
-		}
-		ifs, ok := cc.Body[1].(*ast.IfStmt)
-		if !ok || !isNotOk(ifs.Cond) || ifs.Else != nil {
-			err = fmt.Errorf("transport.handle: lookup is not followed by `if !ok { … }`")
-			return false
-		}
-		p := containsPanic(ifs.Body)
-		if !p {
-			// the non-panicking branch must leave the case without touching the map or a request
-			if len(ifs.Body.List) == 0 {
-				err = fmt.Errorf("transport.handle: `if !ok {}` falls through to the delivery with a nil request")
-				return false
-			}
-			last := ifs.Body.List[len(ifs.Body.List)-1]
-			br, ok := last.(*ast.BranchStmt)
-			if !ok || br.Tok != token.CONTINUE {
-				err = fmt.Errorf("transport.handle: the unknown-tag branch neither panics nor ends in `continue`")
-				return false
-			}
-			bad := false
-			ast.Inspect(ifs.Body, func(x ast.Node) bool {
-				switch y := x.(type) {
-				case *ast.SendStmt:
-					bad = true
-				case *ast.CallExpr:
-					if id, ok := y.Fun.(*ast.Ident); ok && (id.Name == "delete" || id.Name == "close") {
-						bad = true
-					}
-				case *ast.ReturnStmt:
-					bad = true
-				case *ast.AssignStmt:
-					for _, l := range y.Lhs {
-						if _, ok := l.(*ast.IndexExpr); ok {
-							bad = true
-						}
-					}
-				}
-				return true
-			})
-			if bad {
-				err = fmt.Errorf("transport.handle: the unknown-tag branch does more than log and continue (shape not modelled)")
-				return false
-			}
-		}
-		res = &p
-		return false
-	})
-	if err != nil {
-		return false, err
-	}
-	if res == nil {
-		return false, fmt.Errorf("transport.handle: no `case b := <-responses` clause found")
-	}
-	return *res, nil
-}
-
-// readerRetry looks at the reader goroutine in transport.handle:
-//
-//	if err.Timeout() || err.Temporary() { [select {case <-t.ctx.Done(): return … default:}] continue loop }
-//
-// and reports whether the retry branch first stops when the session context
-// is done.
-func readerRetry(c *Ctx) (bool, error) {
-	fd := c.FuncDecl("transport", "handle")
-	if fd == nil {
-		return false, fmt.Errorf("transport.handle not found")
-	}
-	var found *ast.IfStmt
+	var deflt *ast.CaseClause
 	n := 0
-	ast.Inspect(fd.Body, func(x ast.Node) bool {
-		ifs, ok := x.(*ast.IfStmt)
-		if !ok {
-			return true
-		}
-		be, ok := ifs.Cond.(*ast.BinaryExpr)
-		if !ok || be.Op != token.LOR {
-			return true
-		}
-		isCall := func(e ast.Expr, name string) bool {
-			call, ok := e.(*ast.CallExpr)
-			return ok && isSelector(call.Fun, "err", name)
-		}
-		if isCall(be.X, "Timeout") && isCall(be.Y, "Temporary") {
-			found = ifs
-			n++
-		}
-		return true
-	})
-	if n != 1 {
-		return false, fmt.Errorf("transport.handle: expected exactly one `if err.Timeout() || err.Temporary()` in the reader goroutine, found %d", n)
-	}
-	body := found.Body.List
-	if len(body) == 0 {
-		return false, fmt.Errorf("transport.handle: the read-timeout branch is empty (falls through to the fatal path?)")
-	}
-	br, ok := body[len(body)-1].(*ast.BranchStmt)
-	if !ok || br.Tok != token.CONTINUE {
-		return false, fmt.Errorf("transport.handle: the read-timeout branch does not end in `continue`")
-	}
-	if len(body) == 1 {
-		return false, nil
-	}
-	if len(body) != 2 {
-		return false, fmt.Errorf("transport.handle: the read-timeout branch has an unrecognised shape")
-	}
-	sel, ok := body[0].(*ast.SelectStmt)
-	if !ok {
-		return false, fmt.Errorf("transport.handle: the read-timeout branch does something other than select+continue")
-	}
-	ctxCase, def := false, false
-	for _, cl := range sel.Body.List {
-		cc := cl.(*ast.CommClause)
-		if cc.Comm == nil {
-			def = len(cc.Body) == 0
+	for _, cl := range ts.Body.List {
+		cc := cl.(*ast.CaseClause)
+		if cc.List == nil {
+			deflt = cc
 			continue
 		}
-		es, ok := cc.Comm.(*ast.ExprStmt)
-		if !ok {
-			return false, fmt.Errorf("transport.handle: unrecognised case in the read-timeout select")
-		}
-		u, ok := es.X.(*ast.UnaryExpr)
-		if !ok || u.Op != token.ARROW {
-			return false, fmt.Errorf("transport.handle: unrecognised case in the read-timeout select")
-		}
-		returns := len(cc.Body) == 1
-		if returns {
-			_, returns = cc.Body[0].(*ast.ReturnStmt)
-		}
-		if !returns {
-			return false, fmt.Errorf("transport.handle: a case of the read-timeout select does not return")
-		}
-		if call, ok := u.X.(*ast.CallExpr); ok && isSelector(call.Fun, "t", "ctx", "Done") {
-			ctxCase = true
-		} else if !isSelector(u.X, "t", "closed") {
-			return false, fmt.Errorf("transport.handle: the read-timeout select receives from an unexpected channel")
+		for _, t := range cc.List {
+			if v, nme, err := a.msgTypeOf(a.typeOf(t)); err == nil {
+				row.repType, row.repName = v, nme
+				n++
+			} else {
+				return fail("type switch on the reply has a case that is not a message type")
+			}
 		}
 	}
-	if !def {
-		return false, fmt.Errorf("transport.handle: the read-timeout select has no empty default case (it would block)")
+	if n != 1 || deflt == nil || len(deflt.Body) != 1 {
+		return fail("type switch on the reply is not `case MessageR…: …; default: return …, ErrUnexpectedMsg`")
 	}
-	return ctxCase, nil
+	ret, ok := deflt.Body[0].(*ast.ReturnStmt)
+	if !ok || len(ret.Results) == 0 || a.obj(ret.Results[len(ret.Results)-1]) != errUnexpected {
+		return fail("the default case of the type switch on the reply does not return ErrUnexpectedMsg")
+	}
+	row.unexpectedOK = true
+	return row, nil
 }
 
-// ownerArms inspects the owner loop's select in transport.handle:
-//   - does the `case req := <-t.requests` arm call WriteFcall itself (old
-//     shape), or only queue the frame (`pending = append(pending, …)`)?
-//   - the `case w := <-failed` arm: `if outstanding[w.fcall.Tag] == w.req {
-//     delete(outstanding, w.fcall.Tag) }; w.req.err <- w.err`
-//   - the `case out <- next` arm pops the head of pending
-//   - a goroutine of handle receives from `writes`, calls WriteFcall and sends
-//     the frame back on `failed` only when the write failed.
-func ownerArms(c *Ctx) (inline, guarded bool, err error) {
-	fd := c.FuncDecl("transport", "handle")
-	if fd == nil {
-		return false, false, fmt.Errorf("transport.handle not found")
-	}
-	callsWrite := func(n ast.Node) bool {
-		found := false
-		ast.Inspect(n, func(x ast.Node) bool {
-			if call, ok := x.(*ast.CallExpr); ok {
-				if s, ok := call.Fun.(*ast.SelectorExpr); ok && s.Sel.Name == "WriteFcall" {
-					found = true
-				}
-			}
-			return true
-		})
-		return found
-	}
-	var reqArm, failedArm, handArm *ast.CommClause
-	ast.Inspect(fd.Body, func(x ast.Node) bool {
-		cc, ok := x.(*ast.CommClause)
-		if !ok || cc.Comm == nil {
-			return true
-		}
-		switch st := cc.Comm.(type) {
-		case *ast.AssignStmt:
-			if len(st.Rhs) == 1 {
-				if u, ok := st.Rhs[0].(*ast.UnaryExpr); ok && u.Op == token.ARROW {
-					if isSelector(u.X, "t", "requests") {
-						reqArm = cc
-					}
-					if id, ok := u.X.(*ast.Ident); ok && id.Name == "failed" {
-						failedArm = cc
-					}
-				}
-			}
-		case *ast.SendStmt:
-			if id, ok := st.Chan.(*ast.Ident); ok && id.Name == "out" {
-				handArm = cc
-			}
-		}
-		return true
-	})
-	if reqArm == nil {
-		return false, false, fmt.Errorf("transport.handle: no `case req := <-t.requests` arm")
-	}
-	inline = callsWrite(&ast.BlockStmt{List: reqArm.Body})
-	if inline {
-		if failedArm != nil || handArm != nil {
-			return false, false, fmt.Errorf("transport.handle: the requests arm writes the frame itself AND a failed/hand-over arm exists (shape not modelled)")
-		}
-		return true, false, nil
-	}
-	if failedArm == nil || handArm == nil {
-		return false, false, fmt.Errorf("transport.handle: the requests arm does not write the frame, but there is no `case out <- next` / `case w := <-failed` arm")
-	}
-	// requests arm: must append to pending
-	appends := false
-	ast.Inspect(&ast.BlockStmt{List: reqArm.Body}, func(x ast.Node) bool {
-		if as, ok := x.(*ast.AssignStmt); ok && len(as.Lhs) == 1 && len(as.Rhs) == 1 {
-			if id, ok := as.Lhs[0].(*ast.Ident); ok && id.Name == "pending" {
-				if call, ok := as.Rhs[0].(*ast.CallExpr); ok {
-					if f, ok := call.Fun.(*ast.Ident); ok && f.Name == "append" && len(call.Args) == 2 {
-						if a0, ok := call.Args[0].(*ast.Ident); ok && a0.Name == "pending" {
-							appends = true
-						}
-					}
-				}
-			}
-		}
-		return true
-	})
-	if !appends {
-		return false, false, fmt.Errorf("transport.handle: the requests arm neither writes the frame nor appends it to `pending`")
-	}
-	// hand-over arm: pending = pending[1:]
-	pops := false
-	for _, st := range handArm.Body {
-		if as, ok := st.(*ast.AssignStmt); ok && len(as.Lhs) == 1 && len(as.Rhs) == 1 {
-			if id, ok := as.Lhs[0].(*ast.Ident); ok && id.Name == "pending" {
-				if sl, ok := as.Rhs[0].(*ast.SliceExpr); ok && sl.High == nil {
-					if lo, ok := sl.Low.(*ast.BasicLit); ok && lo.Value == "1" {
-						pops = true
-					}
-				}
-			}
-		}
-	}
-	if !pops {
-		return false, false, fmt.Errorf("transport.handle: the `case out <- next` arm does not pop the head of pending")
-	}
-	// failed arm
-	if len(failedArm.Body) != 2 {
-		return false, false, fmt.Errorf("transport.handle: the failed arm is not `[if guard] delete…; w.req.err <- w.err`")
-	}
-	snd, ok := failedArm.Body[1].(*ast.SendStmt)
-	if !ok || !isSelector(snd.Chan, "w", "req", "err") || !isSelector(snd.Value, "w", "err") {
-		return false, false, fmt.Errorf("transport.handle: the failed arm does not end in `w.req.err <- w.err`")
-	}
-	isDelete := func(st ast.Stmt) bool {
-		if es, ok := st.(*ast.ExprStmt); ok {
-			if call, ok := es.X.(*ast.CallExpr); ok {
-				if f, ok := call.Fun.(*ast.Ident); ok && f.Name == "delete" && len(call.Args) == 2 && isSelector(call.Args[1], "w", "fcall", "Tag") {
-					if m, ok := call.Args[0].(*ast.Ident); ok && m.Name == "outstanding" {
-						return true
-					}
-				}
-			}
-		}
-		return false
-	}
-	switch first := failedArm.Body[0].(type) {
-	case *ast.IfStmt:
-		be, ok := first.Cond.(*ast.BinaryExpr)
-		if !ok || be.Op != token.EQL || !isSelector(be.Y, "w", "req") || first.Else != nil {
-			return false, false, fmt.Errorf("transport.handle: the failed arm's guard is not `outstanding[w.fcall.Tag] == w.req`")
-		}
-		ix, ok := be.X.(*ast.IndexExpr)
-		if !ok || !isSelector(ix.Index, "w", "fcall", "Tag") {
-			return false, false, fmt.Errorf("transport.handle: the failed arm's guard does not index by w.fcall.Tag")
-		}
-		if len(first.Body.List) != 1 || !isDelete(first.Body.List[0]) {
-			return false, false, fmt.Errorf("transport.handle: the failed arm's guard does not delete(outstanding, w.fcall.Tag)")
-		}
-		guarded = true
-	default:
-		if !isDelete(first) {
-			return false, false, fmt.Errorf("transport.handle: the failed arm does not release the tag")
-		}
-	}
-	// the writer goroutine
-	writer := false
-	ast.Inspect(fd.Body, func(x ast.Node) bool {
-		gs, ok := x.(*ast.GoStmt)
-		if !ok {
-			return true
-		}
-		recvWrites, sendsFailed := false, false
-		ast.Inspect(gs.Call, func(y ast.Node) bool {
-			switch z := y.(type) {
-			case *ast.UnaryExpr:
-				if id, ok := z.X.(*ast.Ident); ok && z.Op == token.ARROW && id.Name == "writes" {
-					recvWrites = true
-				}
-			case *ast.SendStmt:
-				if id, ok := z.Chan.(*ast.Ident); ok && id.Name == "failed" {
-					sendsFailed = true
-				}
-			}
-			return true
-		})
-		if recvWrites && sendsFailed && callsWrite(gs.Call) {
-			writer = true
-		}
-		return true
-	})
-	if !writer {
-		return false, false, fmt.Errorf("transport.handle: no goroutine receives from `writes`, calls WriteFcall and reports on `failed`")
-	}
-	return false, guarded, nil
-}
+// ---------------------------------------------------------------- transport.send
 
-// sendSelects checks that transport.send consists of two select statements,
-// each with a `<-t.closed` and a `<-ctx.Done()` case, the first sending on
-// t.requests, the second receiving from req.err and req.response; and returns
-// the constant resp.Type is compared with before the error conversion.
-func sendSelects(c *Ctx) (first, second map[string]bool, rerr uint64, err error) {
-	fd := c.FuncDecl("transport", "send")
-	if fd == nil {
-		return nil, nil, 0, fmt.Errorf("transport.send not found")
-	}
+func (a *an) sendSelects() (first, second map[string]bool, rerr uint64, err error) {
+	fd := a.sendFD
+	fn := a.transT.Obj().Name() + "." + fd.Name.Name
+	mo := a.c.Info.Defs[fd.Name].(*types.Func)
+	ctxParam := types.Object(mo.Type().(*types.Signature).Params().At(0))
+	errClosed := a.c.Pkg.Scope().Lookup("ErrClosed")
 	var sels []*ast.SelectStmt
 	for _, st := range fd.Body.List {
 		if s, ok := st.(*ast.SelectStmt); ok {
@@ -639,168 +947,856 @@ func sendSelects(c *Ctx) (first, second map[string]bool, rerr uint64, err error)
 		}
 	}
 	if len(sels) != 2 {
-		return nil, nil, 0, fmt.Errorf("transport.send: expected two top-level select statements, found %d", len(sels))
+		return nil, nil, 0, fmt.Errorf("%s: expected two top-level select statements, found %d", fn, len(sels))
 	}
-	classify := func(s *ast.SelectStmt) (map[string]bool, *ast.CommClause, error) {
+	// every path of a clause body returns; results checked by `good`
+	allReturn := func(body []ast.Stmt, good func(*ast.ReturnStmt) bool) bool {
+		okAll, n := true, 0
+		falls, _ := a.walk(body, 0, func(ast.Expr) int { return 0 }, func(s ast.Stmt, _ int) {
+			if r, ok := s.(*ast.ReturnStmt); ok {
+				n++
+				if !good(r) {
+					okAll = false
+				}
+			}
+		})
+		return okAll && n > 0 && !falls
+	}
+	var respClause *ast.CommClause
+	var respVar types.Object
+	classify := func(s *ast.SelectStmt) (map[string]bool, error) {
 		m := map[string]bool{}
-		var respClause *ast.CommClause
 		for _, cl := range s.Body.List {
 			cc := cl.(*ast.CommClause)
 			if cc.Comm == nil {
-				return nil, nil, fmt.Errorf("transport.send: select has a default case (shape not modelled)")
+				return nil, fmt.Errorf("%s: a select has a default case (shape not modelled)", fn)
 			}
-			var recv ast.Expr
-			switch x := cc.Comm.(type) {
-			case *ast.ExprStmt:
-				if u, ok := x.X.(*ast.UnaryExpr); ok && u.Op == token.ARROW {
-					recv = u.X
-				}
-			case *ast.AssignStmt:
-				if len(x.Rhs) == 1 {
-					if u, ok := x.Rhs[0].(*ast.UnaryExpr); ok && u.Op == token.ARROW {
-						recv = u.X
-					}
-				}
-			case *ast.SendStmt:
-				if isSelector(x.Chan, "t", "requests") {
+			if snd, ok := cc.Comm.(*ast.SendStmt); ok {
+				if a.isField(snd.Chan, a.trRequests) && ptrTo(a.typeOf(snd.Value), a.reqT) {
 					m["requests"] = true
+					if err := a.freshRequest(snd.Value); err != nil {
+						return nil, fmt.Errorf("%s: %v", fn, err)
+					}
 					continue
 				}
-				return nil, nil, fmt.Errorf("transport.send: send on an unexpected channel")
+				return nil, fmt.Errorf("%s: send on a channel that is not the transport's request channel", fn)
+			}
+			ch, bound, ok := a.commRecv(cc.Comm)
+			if !ok {
+				return nil, fmt.Errorf("%s: unrecognised select case", fn)
 			}
 			switch {
-			case recv == nil:
-				return nil, nil, fmt.Errorf("transport.send: unrecognised select case")
-			case isSelector(recv, "t", "closed"):
+			case a.isField(ch, a.trClosed):
 				m["closed"] = true
-				if !returnsLast(&ast.BlockStmt{List: cc.Body}, "ErrClosed") {
-					return nil, nil, fmt.Errorf("transport.send: `case <-t.closed` does not return ErrClosed")
+				if !allReturn(cc.Body, func(r *ast.ReturnStmt) bool {
+					return len(r.Results) == 2 && a.isNil(r.Results[0]) && a.obj(r.Results[1]) == errClosed
+				}) {
+					return nil, fmt.Errorf("%s: the case receiving from the closed channel does not return nil, ErrClosed", fn)
 				}
-			case isSelector(recv, "req", "err"):
+			case a.isField(ch, a.reqErr):
 				m["err"] = true
-				if !returnsLast(&ast.BlockStmt{List: cc.Body}, "err") {
-					return nil, nil, fmt.Errorf("transport.send: `case err := <-req.err` does not return err")
+				if bound == nil || !allReturn(cc.Body, func(r *ast.ReturnStmt) bool {
+					return len(r.Results) == 2 && a.isNil(r.Results[0]) && a.obj(r.Results[1]) == bound
+				}) {
+					return nil, fmt.Errorf("%s: the case receiving from the request's error channel does not return nil and the error received", fn)
 				}
-			case isSelector(recv, "req", "response"):
+			case a.isField(ch, a.reqResp):
 				m["response"] = true
-				respClause = cc
+				respClause, respVar = cc, bound
 			default:
-				if call, ok := recv.(*ast.CallExpr); ok && isSelector(call.Fun, "ctx", "Done") {
+				if x, ok := a.doneOf(ch); ok && a.obj(x) == ctxParam {
 					m["ctx"] = true
-					ok2 := false
-					if len(cc.Body) == 1 {
-						if ret, ok := cc.Body[0].(*ast.ReturnStmt); ok && len(ret.Results) == 2 {
-							if call, ok := ret.Results[1].(*ast.CallExpr); ok && isSelector(call.Fun, "ctx", "Err") {
-								ok2 = true
-							}
+					if !allReturn(cc.Body, func(r *ast.ReturnStmt) bool {
+						if len(r.Results) != 2 || !a.isNil(r.Results[0]) {
+							return false
 						}
-					}
-					if !ok2 {
-						return nil, nil, fmt.Errorf("transport.send: `case <-ctx.Done()` does not return ctx.Err()")
+						call, ok := unparen(r.Results[1]).(*ast.CallExpr)
+						if !ok {
+							return false
+						}
+						sel, ok := unparen(call.Fun).(*ast.SelectorExpr)
+						return ok && sel.Sel.Name == "Err" && a.obj(sel.X) == ctxParam
+					}) {
+						return nil, fmt.Errorf("%s: the case `<-ctx.Done()` does not return nil, ctx.Err()", fn)
 					}
 					continue
 				}
-				return nil, nil, fmt.Errorf("transport.send: receive from an unexpected channel")
+				return nil, fmt.Errorf("%s: receive from an unexpected channel in a select", fn)
 			}
 		}
-		return m, respClause, nil
+		return m, nil
 	}
-	first, _, err = classify(sels[0])
-	if err != nil {
+	if first, err = classify(sels[0]); err != nil {
 		return
 	}
-	var rc *ast.CommClause
-	second, rc, err = classify(sels[1])
-	if err != nil {
+	respClause = nil
+	if second, err = classify(sels[1]); err != nil {
 		return
 	}
-	if rc == nil || len(rc.Body) != 2 {
-		return nil, nil, 0, fmt.Errorf("transport.send: the response case is not `if resp.Type == X {…}; return resp.Message, nil`")
+	if respClause == nil || respVar == nil {
+		return nil, nil, 0, fmt.Errorf("%s: the second select has no case binding the reply received from the request's response channel", fn)
 	}
-	ifs, ok := rc.Body[0].(*ast.IfStmt)
-	if !ok {
-		return nil, nil, 0, fmt.Errorf("transport.send: the response case does not start with an if")
-	}
-	be, ok := ifs.Cond.(*ast.BinaryExpr)
-	if !ok || be.Op != token.EQL || !isSelector(be.X, "resp", "Type") {
-		return nil, nil, 0, fmt.Errorf("transport.send: the response case does not test resp.Type == …")
-	}
-	id, ok := be.Y.(*ast.Ident)
-	if !ok {
-		return nil, nil, 0, fmt.Errorf("transport.send: resp.Type is not compared with a named constant")
-	}
-	k, ok := c.Pkg.Scope().Lookup(id.Name).(*types.Const)
-	if !ok {
-		return nil, nil, 0, fmt.Errorf("transport.send: %s is not a constant", id.Name)
-	}
-	rerr, _ = constant.Uint64Val(k.Val())
-	// inside: the error conversion must return the asserted MessageRerror as the error
-	convOK := false
-	if n := len(ifs.Body.List); n >= 1 {
-		if ret, ok := ifs.Body.List[n-1].(*ast.ReturnStmt); ok && len(ret.Results) == 2 {
-			if x, ok := ret.Results[0].(*ast.Ident); ok && x.Name == "nil" {
-				if y, ok := ret.Results[1].(*ast.Ident); ok && y.Name != "nil" {
-					convOK = true
-				}
-			}
+	// the response case: under resp.Type == K return nil, <error>; otherwise return resp.Message, nil
+	var kVal constant.Value
+	typeIs := withNot(func(e ast.Expr) int {
+		b, ok := e.(*ast.BinaryExpr)
+		if !ok || (b.Op != token.EQL && b.Op != token.NEQ) {
+			return 0
 		}
+		x, y := unparen(b.X), unparen(b.Y)
+		isRespType := func(e ast.Expr) bool {
+			sel, ok := a.through(e).(*ast.SelectorExpr)
+			if !ok || a.obj(sel.X) != respVar {
+				return false
+			}
+			f, ok := a.c.Info.Uses[sel.Sel].(*types.Var)
+			return ok && f.IsField() && types.Identical(f.Type(), a.fcallTypeT)
+		}
+		if isRespType(y) {
+			x, y = y, x
+		}
+		if !isRespType(x) {
+			return 0
+		}
+		tv := a.c.Info.Types[y]
+		if tv.Value == nil {
+			return 0
+		}
+		if kVal != nil && !constant.Compare(kVal, token.EQL, tv.Value) {
+			return 0
+		}
+		kVal = tv.Value
+		if b.Op == token.EQL {
+			return 1
+		}
+		return -1
+	})
+	nErr, nMsg, bad := 0, 0, ""
+	falls, _ := a.walk(respClause.Body, 0, typeIs, func(s ast.Stmt, cond int) {
+		r, ok := s.(*ast.ReturnStmt)
+		if !ok {
+			return
+		}
+		if len(r.Results) != 2 {
+			bad = "a return with other than two results"
+			return
+		}
+		isMsg := func() bool {
+			sel, ok := a.through(r.Results[0]).(*ast.SelectorExpr)
+			if !ok || a.obj(sel.X) != respVar {
+				return false
+			}
+			f, ok := a.c.Info.Uses[sel.Sel].(*types.Var)
+			return ok && f.IsField() && types.Identical(f.Type(), a.messageT) && a.isNil(r.Results[1])
+		}
+		switch cond {
+		case 1:
+			nErr++
+			if !a.isNil(r.Results[0]) || a.isNil(r.Results[1]) {
+				bad = "on the error-reply path a return that is not `nil, <error>`"
+			}
+		case -1:
+			nMsg++
+			if !isMsg() {
+				bad = "on the ordinary path a return that is not `resp.Message, nil`"
+			}
+		default:
+			bad = "a return reached without the reply's type having been tested"
+		}
+	})
+	switch {
+	case bad != "":
+		return nil, nil, 0, fmt.Errorf("%s: the response case has %s", fn, bad)
+	case falls:
+		return nil, nil, 0, fmt.Errorf("%s: the response case can fall out of the select", fn)
+	case kVal == nil || nErr == 0 || nMsg == 0:
+		return nil, nil, 0, fmt.Errorf("%s: the response case is not `resp.Type == K -> return nil, <error>; otherwise return resp.Message, nil` in any form", fn)
 	}
-	if !convOK {
-		return nil, nil, 0, fmt.Errorf("transport.send: the resp.Type == %s branch does not end in `return nil, <the reply as error>`", id.Name)
-	}
-	ret, ok := rc.Body[1].(*ast.ReturnStmt)
-	if !ok || len(ret.Results) != 2 || !isSelector(ret.Results[0], "resp", "Message") {
-		return nil, nil, 0, fmt.Errorf("transport.send: the response case does not end in `return resp.Message, nil`")
-	}
+	rerr, _ = constant.Uint64Val(kVal)
 	return
 }
 
-// chanCaps returns the buffer capacities of fcallRequest.response and .err as
-// built by newFcallRequest.
-func chanCaps(c *Ctx) (resp, errc uint64, err error) {
-	fd := c.FuncDecl("", "newFcallRequest")
-	if fd == nil {
-		return 0, 0, fmt.Errorf("newFcallRequest not found")
+// freshRequest: the request handed to the owner loop is built for this call
+// (`&request{…}` directly, or the result of a function all of whose returns are
+// such a literal).  The model identifies a call with its request: a request that
+// is reused - pooled, cached - is outside it.
+func (a *an) freshRequest(e ast.Expr) error {
+	isFreshLit := func(x ast.Expr) bool {
+		x = a.through(x)
+		if u, ok := x.(*ast.UnaryExpr); ok && u.Op == token.AND {
+			x = unparen(u.X)
+		}
+		cl, ok := x.(*ast.CompositeLit)
+		return ok && types.Identical(a.typeOf(cl), a.reqT)
 	}
-	found := map[string]uint64{}
-	ast.Inspect(fd.Body, func(n ast.Node) bool {
-		kv, ok := n.(*ast.KeyValueExpr)
+	x := a.through(e)
+	if isFreshLit(x) {
+		return nil
+	}
+	call, ok := x.(*ast.CallExpr)
+	if !ok {
+		return fmt.Errorf("cannot tell where the request sent to the owner loop comes from")
+	}
+	fo, ok := a.obj(call.Fun).(*types.Func)
+	if !ok {
+		return fmt.Errorf("the request sent to the owner loop is the result of an unknown call")
+	}
+	for _, f := range a.c.Files {
+		for _, d := range f.Decls {
+			fd, ok := d.(*ast.FuncDecl)
+			if !ok || fd.Body == nil || a.c.Info.Defs[fd.Name] != types.Object(fo) {
+				continue
+			}
+			n, bad := 0, false
+			ast.Inspect(fd.Body, func(y ast.Node) bool {
+				if _, isLit := y.(*ast.FuncLit); isLit {
+					return false
+				}
+				if r, ok := y.(*ast.ReturnStmt); ok {
+					n++
+					if len(r.Results) != 1 || !isFreshLit(r.Results[0]) {
+						bad = true
+					}
+				}
+				return true
+			})
+			if n == 0 || bad {
+				return fmt.Errorf("%s does not simply return a newly built %s: a request that may be shared between calls is not modelled", fd.Name.Name, a.reqT.Obj().Name())
+			}
+			return nil
+		}
+	}
+	return fmt.Errorf("the function building the request was not found")
+}
+
+// chanCaps: the capacities given to the request's response and err channels
+// where a request is built.
+func (a *an) chanCaps() (resp, errc uint64, err error) {
+	found := map[*types.Var]uint64{}
+	n := 0
+	for _, f := range a.c.Files {
+		ast.Inspect(f, func(x ast.Node) bool {
+			cl, ok := x.(*ast.CompositeLit)
+			if !ok || !types.Identical(a.typeOf(cl), a.reqT) {
+				return true
+			}
+			n++
+			for _, el := range cl.Elts {
+				kv, ok := el.(*ast.KeyValueExpr)
+				if !ok {
+					err = fmt.Errorf("the request is built with a positional literal (shape not modelled)")
+					return false
+				}
+				fv, _ := a.obj(kv.Key).(*types.Var)
+				if fv != a.reqResp && fv != a.reqErr {
+					continue
+				}
+				call, ok := a.isBuiltinCall(kv.Value, "make")
+				if !ok {
+					err = fmt.Errorf("a channel of the request is not built with make")
+					return false
+				}
+				switch len(call.Args) {
+				case 1:
+					found[fv] = 0
+				case 2:
+					tv := a.c.Info.Types[call.Args[1]]
+					if tv.Value == nil {
+						err = fmt.Errorf("the capacity of a channel of the request is not a constant")
+						return false
+					}
+					found[fv], _ = constant.Uint64Val(tv.Value)
+				}
+			}
+			return true
+		})
+	}
+	if err != nil {
+		return
+	}
+	r, ok1 := found[a.reqResp]
+	e, ok2 := found[a.reqErr]
+	if n != 1 || !ok1 || !ok2 {
+		return 0, 0, fmt.Errorf("expected exactly one place that builds a %s with both channels made (found %d literals)", a.reqT.Obj().Name(), n)
+	}
+	return r, e, nil
+}
+
+// ---------------------------------------------------------------- transport.handle
+
+func (a *an) containsPanic(stmts []ast.Stmt) bool {
+	found := false
+	for _, st := range stmts {
+		ast.Inspect(st, func(x ast.Node) bool {
+			call, ok := x.(*ast.CallExpr)
+			if !ok {
+				return true
+			}
+			if _, isP := a.isBuiltinCall(call, "panic"); isP {
+				found = true
+			}
+			if f, ok := a.obj(call.Fun).(*types.Func); ok && f.Pkg() != nil {
+				switch f.Pkg().Path() {
+				case "log":
+					if strings.HasPrefix(f.Name(), "Fatal") || strings.HasPrefix(f.Name(), "Panic") {
+						found = true
+					}
+				case "os":
+					if f.Name() == "Exit" {
+						found = true
+					}
+				case "runtime":
+					if f.Name() == "Goexit" {
+						found = true
+					}
+				}
+			}
+			return true
+		})
+	}
+	return found
+}
+
+type handleFacts struct {
+	panics, inline, guarded, retryStops bool
+}
+
+func (a *an) handleAnalysis() (hf handleFacts, err error) {
+	fd := a.handleFD
+	fn := a.transT.Obj().Name() + "." + fd.Name.Name
+	bad := func(format string, args ...interface{}) (handleFacts, error) {
+		return hf, fmt.Errorf(fn+": "+format, args...)
+	}
+	isJobChan := func(t types.Type) bool { e := chanElem(t); return e != nil && a.jobT != nil && ptrTo(e, a.jobT) }
+	isFcallChan := func(t types.Type) bool { e := chanElem(t); return e != nil && ptrTo(e, a.fcallT) }
+	isWriteCall := func(call *ast.CallExpr) bool {
+		f, ok := a.obj(call.Fun).(*types.Func)
+		return ok && f.Name() == "WriteFcall"
+	}
+	isReadCall := func(call *ast.CallExpr) bool {
+		f, ok := a.obj(call.Fun).(*types.Func)
+		return ok && f.Name() == "ReadFcall"
+	}
+	calls := func(n ast.Node, pred func(*ast.CallExpr) bool) bool {
+		found := false
+		ast.Inspect(n, func(x ast.Node) bool {
+			if call, ok := x.(*ast.CallExpr); ok && pred(call) {
+				found = true
+			}
+			return true
+		})
+		return found
+	}
+
+	// the owner loop: the for statement at the top level of the body whose body has a select
+	var loop *ast.ForStmt
+	for _, st := range fd.Body.List {
+		s := st
+		if l, ok := s.(*ast.LabeledStmt); ok {
+			s = l.Stmt
+		}
+		if f, ok := s.(*ast.ForStmt); ok {
+			loop = f
+		}
+	}
+	if loop == nil {
+		return bad("no top-level for loop")
+	}
+	var sel *ast.SelectStmt
+	for _, st := range loop.Body.List {
+		if s, ok := st.(*ast.SelectStmt); ok {
+			sel = s
+		}
+	}
+	if sel == nil {
+		return bad("the owner loop has no select at its top level")
+	}
+
+	// the tag map: the local of type map[Tag]*request
+	var outstanding types.Object
+	ast.Inspect(fd.Body, func(x ast.Node) bool {
+		id, ok := x.(*ast.Ident)
 		if !ok {
 			return true
 		}
-		key, ok := kv.Key.(*ast.Ident)
-		if !ok {
-			return true
-		}
-		call, ok := kv.Value.(*ast.CallExpr)
-		if !ok {
-			return true
-		}
-		if id, ok := call.Fun.(*ast.Ident); !ok || id.Name != "make" {
-			return true
-		}
-		if len(call.Args) == 1 {
-			found[key.Name] = 0
-		} else if len(call.Args) == 2 {
-			if tv, ok := c.Info.Types[call.Args[1]]; ok && tv.Value != nil {
-				v, _ := constant.Uint64Val(tv.Value)
-				found[key.Name] = v
-			} else {
-				err = fmt.Errorf("newFcallRequest: capacity of %s is not a constant", key.Name)
+		if o, ok := a.c.Info.Defs[id].(*types.Var); ok && !o.IsField() {
+			if m, ok := o.Type().Underlying().(*types.Map); ok && types.Identical(m.Key(), a.tagT) && ptrTo(m.Elem(), a.reqT) {
+				outstanding = o
 			}
 		}
 		return true
 	})
-	if err != nil {
-		return
+	if outstanding == nil {
+		return bad("no local of type map[Tag]*%s", a.reqT.Obj().Name())
 	}
-	r, ok1 := found["response"]
-	e, ok2 := found["err"]
-	if !ok1 || !ok2 {
-		return 0, 0, fmt.Errorf("newFcallRequest: response/err channels not found in the composite literal")
+	// X[T] with X the tag map; returns T
+	indexOut := func(e ast.Expr) (ast.Expr, bool) {
+		ix, ok := a.through(e).(*ast.IndexExpr)
+		if !ok || !a.isVar(ix.X, outstanding) {
+			return nil, false
+		}
+		return ix.Index, true
 	}
-	return r, e, nil
+	// delete(outstanding, T); returns T
+	deleteOut := func(s ast.Stmt) (ast.Expr, bool) {
+		es, ok := s.(*ast.ExprStmt)
+		if !ok {
+			return nil, false
+		}
+		call, ok := a.isBuiltinCall(es.X, "delete")
+		if !ok || len(call.Args) != 2 || !a.isVar(call.Args[0], outstanding) {
+			return nil, false
+		}
+		return call.Args[1], true
+	}
+	// e is V.Tag for the *Fcall variable V (field found by type Tag)
+	tagOfVar := func(e ast.Expr, v types.Object) bool {
+		s, ok := a.through(e).(*ast.SelectorExpr)
+		if !ok || !a.isVar(s.X, v) {
+			return false
+		}
+		f, ok := a.c.Info.Uses[s.Sel].(*types.Var)
+		return ok && f.IsField() && types.Identical(f.Type(), a.tagT)
+	}
+	// e is W.fcall.Tag for the job variable W
+	tagOfJob := func(e ast.Expr, w types.Object) bool {
+		s, ok := a.through(e).(*ast.SelectorExpr)
+		if !ok {
+			return false
+		}
+		f, ok := a.c.Info.Uses[s.Sel].(*types.Var)
+		if !ok || !f.IsField() || !types.Identical(f.Type(), a.tagT) {
+			return false
+		}
+		x, ok := a.fieldOf(s.X, a.jobFcall)
+		return ok && a.isVar(x, w)
+	}
+	reqOfJob := func(e ast.Expr, w types.Object) bool {
+		x, ok := a.fieldOf(e, a.jobReq)
+		return ok && a.isVar(x, w)
+	}
+
+	var reqArm, handArm, failedArm, respArm *ast.CommClause
+	var reqVar, failedVar, respVar types.Object
+	var failedChan types.Object
+	for _, cl := range sel.Body.List {
+		cc := cl.(*ast.CommClause)
+		if cc.Comm == nil {
+			return bad("the owner loop's select has a default case (it would spin)")
+		}
+		if snd, ok := cc.Comm.(*ast.SendStmt); ok {
+			if isJobChan(a.typeOf(snd.Chan)) {
+				if handArm != nil {
+					return bad("two arms of the owner loop send a queued frame")
+				}
+				handArm = cc
+				continue
+			}
+			return bad("the owner loop's select sends on an unexpected channel")
+		}
+		ch, bound, ok := a.commRecv(cc.Comm)
+		if !ok {
+			return bad("unrecognised arm in the owner loop's select")
+		}
+		switch {
+		case a.isField(ch, a.trRequests):
+			reqArm, reqVar = cc, bound
+		case isJobChan(a.typeOf(ch)):
+			failedArm, failedVar, failedChan = cc, bound, a.obj(ch)
+		case isFcallChan(a.typeOf(ch)):
+			respArm, respVar = cc, bound
+		case a.isField(ch, a.trShutdown), a.isField(ch, a.trClosed):
+		default:
+			if _, ok := a.doneOf(ch); ok {
+				continue
+			}
+			return bad("the owner loop's select receives from an unexpected channel")
+		}
+	}
+	if reqArm == nil || reqVar == nil {
+		return bad("no arm of the owner loop receives a request from the transport's request channel")
+	}
+	if respArm == nil || respVar == nil {
+		return bad("no arm of the owner loop receives a decoded reply (chan *Fcall)")
+	}
+
+	// ---- the responses arm: lookup by the reply's tag; miss -> drop or panic; hit -> delete + hand over
+	var lookupStmt ast.Stmt
+	var foundReq, okObj types.Object
+	findLookup := func(s ast.Stmt) {
+		as, ok := s.(*ast.AssignStmt)
+		if !ok || (len(as.Lhs) != 2 && len(as.Lhs) != 1) || len(as.Rhs) != 1 {
+			return
+		}
+		ix, ok := unparen(as.Rhs[0]).(*ast.IndexExpr)
+		if !ok || !a.isVar(ix.X, outstanding) || !tagOfVar(ix.Index, respVar) {
+			return
+		}
+		lookupStmt, foundReq = s, a.obj(as.Lhs[0])
+		if len(as.Lhs) == 2 {
+			okObj = a.obj(as.Lhs[1]) // otherwise the hit/miss test is `req != nil`
+		}
+	}
+	a.walk(respArm.Body, 0, func(ast.Expr) int { return 0 }, func(s ast.Stmt, _ int) {
+		if lookupStmt == nil {
+			findLookup(s)
+		}
+	})
+	if lookupStmt == nil || foundReq == nil {
+		return bad("the responses arm does not look the reply up in the tag map by the reply's tag")
+	}
+	okAtom := withNot(func(e ast.Expr) int {
+		if okObj != nil && a.obj(e) == okObj {
+			return 1
+		}
+		// req != nil / req == nil on the looked-up request is the same test
+		if b, ok := e.(*ast.BinaryExpr); ok && (b.Op == token.NEQ || b.Op == token.EQL) {
+			x, y := b.X, b.Y
+			if a.isNil(x) {
+				x, y = y, x
+			}
+			if a.isNil(y) && a.obj(x) == foundReq {
+				if b.Op == token.NEQ {
+					return 1
+				}
+				return -1
+			}
+		}
+		return 0
+	})
+	var miss, hit, unknown []ast.Stmt
+	missLeaves := true
+	seen := false
+	falls, after := a.walk(respArm.Body, 0, okAtom, func(s ast.Stmt, cond int) {
+		if s == lookupStmt {
+			seen = true
+			return
+		}
+		if !seen {
+			return
+		}
+		switch cond {
+		case -1:
+			miss = append(miss, s)
+		case 1:
+			hit = append(hit, s)
+		default:
+			unknown = append(unknown, s)
+		}
+	})
+	_ = falls
+	_ = after
+	hf.panics = a.containsPanic(miss)
+	effect := func(s ast.Stmt) bool { // does the statement touch the map, a channel, or leave the function?
+		eff := false
+		ast.Inspect(s, func(x ast.Node) bool {
+			switch y := x.(type) {
+			case *ast.SendStmt, *ast.ReturnStmt, *ast.GoStmt:
+				eff = true
+			case *ast.CallExpr:
+				if _, ok := a.isBuiltinCall(y, "delete"); ok {
+					eff = true
+				}
+				if _, ok := a.isBuiltinCall(y, "close"); ok {
+					eff = true
+				}
+			case *ast.AssignStmt:
+				for _, l := range y.Lhs {
+					if _, ok := unparen(l).(*ast.IndexExpr); ok {
+						eff = true
+					}
+					if a.isVar(l, outstanding) {
+						eff = true
+					}
+				}
+			}
+			return true
+		})
+		return eff
+	}
+	var deleted, delivered bool
+	for _, s := range hit {
+		if t, ok := deleteOut(s); ok && tagOfVar(t, respVar) {
+			deleted = true
+		}
+		if snd, ok := s.(*ast.SendStmt); ok {
+			if x, ok := a.fieldOf(snd.Chan, a.reqResp); ok && a.isVar(x, foundReq) && a.isVar(snd.Value, respVar) {
+				delivered = true
+			}
+		}
+	}
+	for _, s := range unknown {
+		if effect(s) {
+			return bad("the responses arm does something to the tag map or a channel whether or not the reply's tag was found (a miss falls through to the delivery?)")
+		}
+	}
+	if !hf.panics {
+		for _, s := range miss {
+			if effect(s) {
+				missLeaves = false
+			}
+		}
+		if !missLeaves {
+			return bad("the unknown-tag branch does more than log and leave the arm (shape not modelled)")
+		}
+	}
+	if !deleted || !delivered {
+		return bad("on a hit the responses arm does not both delete the reply's tag from the tag map and hand the reply to the request's response channel")
+	}
+
+	// ---- the requests arm: writes the frame itself, or enters the tag and queues the frame
+	hf.inline = calls(&ast.BlockStmt{List: reqArm.Body}, isWriteCall)
+	if hf.inline {
+		if failedArm != nil || handArm != nil {
+			return bad("the requests arm writes the frame itself AND a failed/hand-over arm exists (shape not modelled)")
+		}
+	} else {
+		if a.jobT == nil || failedArm == nil || handArm == nil || failedVar == nil {
+			return bad("the requests arm does not write the frame, but there is no hand-over arm and failed-write arm")
+		}
+		var pending types.Object
+		entered, queued := false, false
+		ast.Inspect(&ast.BlockStmt{List: reqArm.Body}, func(x ast.Node) bool {
+			as, ok := x.(*ast.AssignStmt)
+			if !ok || len(as.Lhs) != 1 || len(as.Rhs) != 1 {
+				return true
+			}
+			if _, ok := indexOut(as.Lhs[0]); ok && a.isVar(as.Rhs[0], reqVar) {
+				entered = true
+			}
+			if call, ok := a.isBuiltinCall(as.Rhs[0], "append"); ok && len(call.Args) == 2 {
+				lo := a.obj(as.Lhs[0])
+				if sl, ok := a.typeOf(as.Lhs[0]).Underlying().(*types.Slice); ok && ptrTo(sl.Elem(), a.jobT) && lo != nil && a.obj(call.Args[0]) == lo {
+					queued, pending = true, lo
+				}
+			}
+			return true
+		})
+		if !entered || !queued {
+			return bad("the requests arm neither writes the frame nor (enters the request in the tag map and appends the frame to the queue)")
+		}
+		// hand-over arm pops the head of the queue
+		pops := false
+		for _, st := range handArm.Body {
+			if as, ok := st.(*ast.AssignStmt); ok && len(as.Lhs) == 1 && len(as.Rhs) == 1 && a.obj(as.Lhs[0]) == pending {
+				if sl, ok := unparen(as.Rhs[0]).(*ast.SliceExpr); ok && sl.High == nil && sl.Low != nil && a.obj(sl.X) == pending {
+					if tv := a.c.Info.Types[sl.Low]; tv.Value != nil {
+						if v, ok := constant.Int64Val(tv.Value); ok && v == 1 {
+							pops = true
+						}
+					}
+				}
+			}
+		}
+		if !pops {
+			return bad("the hand-over arm does not pop the head of the queue")
+		}
+		// failed-write arm: [guarded] delete of the frame's tag, and the frame's error to the request's err channel
+		errSent, delPlain, delGuarded := false, false, false
+		guardAtom := withNot(func(e ast.Expr) int {
+			b, ok := e.(*ast.BinaryExpr)
+			if !ok || (b.Op != token.EQL && b.Op != token.NEQ) {
+				return 0
+			}
+			x, y := b.X, b.Y
+			if reqOfJob(x, failedVar) {
+				x, y = y, x
+			}
+			t, ok := indexOut(x)
+			if !ok || !tagOfJob(t, failedVar) || !reqOfJob(y, failedVar) {
+				return 0
+			}
+			if b.Op == token.EQL {
+				return 1
+			}
+			return -1
+		})
+		otherEffect := false
+		a.walk(failedArm.Body, 0, guardAtom, func(s ast.Stmt, cond int) {
+			if t, ok := deleteOut(s); ok {
+				if !tagOfJob(t, failedVar) {
+					otherEffect = true
+				} else if cond == 1 {
+					delGuarded = true
+				} else if cond == 0 {
+					delPlain = true
+				} else {
+					otherEffect = true
+				}
+				return
+			}
+			if snd, ok := s.(*ast.SendStmt); ok {
+				x, ok1 := a.fieldOf(snd.Chan, a.reqErr)
+				y, ok2 := a.fieldOf(snd.Value, a.jobErr)
+				if ok1 && ok2 && reqOfJob(x, failedVar) && a.isVar(y, failedVar) && cond != dead {
+					if cond == 0 {
+						errSent = true
+					} else {
+						otherEffect = true // the error must reach the call whether or not the tag is still its own
+					}
+					return
+				}
+				otherEffect = true
+				return
+			}
+			if effect(s) {
+				otherEffect = true
+			}
+		})
+		if otherEffect || !errSent || delPlain == delGuarded {
+			return bad("the failed-write arm is not `[if tagmap[frame.tag] == frame.req] delete(tagmap, frame.tag)` plus `frame.req.err <- frame.err`")
+		}
+		hf.guarded = delGuarded
+		// the writer goroutine: receives a queued frame, calls WriteFcall, reports on the failed channel
+		writer := false
+		ast.Inspect(fd.Body, func(x ast.Node) bool {
+			gs, ok := x.(*ast.GoStmt)
+			if !ok {
+				return true
+			}
+			recvJob, sendsFailed := false, false
+			ast.Inspect(gs.Call, func(y ast.Node) bool {
+				switch z := y.(type) {
+				case *ast.UnaryExpr:
+					if z.Op == token.ARROW && isJobChan(a.typeOf(z.X)) && a.obj(z.X) != failedChan {
+						recvJob = true
+					}
+				case *ast.SendStmt:
+					if a.obj(z.Chan) == failedChan {
+						sendsFailed = true
+					}
+				}
+				return true
+			})
+			if recvJob && sendsFailed && calls(gs.Call, isWriteCall) {
+				writer = true
+			}
+			return true
+		})
+		if !writer {
+			return bad("no goroutine receives queued frames, calls WriteFcall and reports failures on the channel the failed-write arm receives from")
+		}
+	}
+
+	// ---- the reader goroutine's retry branch
+	var reader *ast.GoStmt
+	ast.Inspect(fd.Body, func(x ast.Node) bool {
+		if gs, ok := x.(*ast.GoStmt); ok && calls(gs.Call, isReadCall) {
+			reader = gs
+		}
+		return true
+	})
+	if reader == nil {
+		return bad("no goroutine calls ReadFcall")
+	}
+	isNetErrCall := func(e ast.Expr, name string) bool {
+		call, ok := unparen(e).(*ast.CallExpr)
+		if !ok {
+			return false
+		}
+		s, ok := unparen(call.Fun).(*ast.SelectorExpr)
+		return ok && s.Sel.Name == name && len(call.Args) == 0
+	}
+	mentionsBoth := func(e ast.Expr) bool {
+		t1, t2 := false, false
+		ast.Inspect(e, func(x ast.Node) bool {
+			if ex, ok := x.(ast.Expr); ok {
+				if isNetErrCall(ex, "Timeout") {
+					t1 = true
+				}
+				if isNetErrCall(ex, "Temporary") {
+					t2 = true
+				}
+			}
+			return true
+		})
+		return t1 && t2
+	}
+	var retryIf *ast.IfStmt
+	nRetry := 0
+	ast.Inspect(reader.Call, func(x ast.Node) bool {
+		if ifs, ok := x.(*ast.IfStmt); ok && mentionsBoth(ifs.Cond) {
+			retryIf = ifs
+			nRetry++
+			return false
+		}
+		return true
+	})
+	if nRetry != 1 {
+		return bad("expected exactly one `if err.Timeout() || err.Temporary()` in the reader goroutine, found %d", nRetry)
+	}
+	// every path through the branch ends in continue or return; returns only inside a select that
+	// receives from t.ctx.Done() (and possibly the closed channel) and has a default that goes on
+	stops, continues, other := false, false, ""
+	var inspectRetry func(stmts []ast.Stmt) (falls bool)
+	inspectRetry = func(stmts []ast.Stmt) bool {
+		for _, st := range stmts {
+			switch s := st.(type) {
+			case *ast.BranchStmt:
+				if s.Tok == token.CONTINUE {
+					continues = true
+					return false
+				}
+				other = "a break/goto"
+				return false
+			case *ast.SelectStmt:
+				ctxCase, def, defFalls := false, false, false
+				for _, cl := range s.Body.List {
+					cc := cl.(*ast.CommClause)
+					if cc.Comm == nil {
+						def = true
+						defFalls = inspectRetry(cc.Body)
+						continue
+					}
+					ch, _, ok := a.commRecv(cc.Comm)
+					if !ok {
+						other = "a select case that is not a receive"
+						continue
+					}
+					ret := len(cc.Body) == 1
+					if ret {
+						_, ret = cc.Body[0].(*ast.ReturnStmt)
+					}
+					if !ret {
+						other = "a select case that does not return"
+					}
+					if x, ok := a.doneOf(ch); ok && a.isField(x, a.trCtx) {
+						ctxCase = true
+					} else if !a.isField(ch, a.trClosed) && !a.isField(ch, a.trShutdown) {
+						other = "a select case receiving from an unexpected channel"
+					}
+				}
+				if !def {
+					other = "a select without default (it would block)"
+				}
+				if ctxCase {
+					stops = true
+				}
+				if !defFalls {
+					return false
+				}
+			case *ast.ExprStmt, *ast.AssignStmt, *ast.EmptyStmt:
+				// logging and the like
+				if effect(st) {
+					other = "a statement with an effect on channels or the tag map"
+				}
+			default:
+				other = fmt.Sprintf("a %T", st)
+			}
+		}
+		return true
+	}
+	if inspectRetry(retryIf.Body.List) {
+		return bad("the read-timeout branch falls through to the fatal path")
+	}
+	if other != "" || !continues {
+		return bad("the read-timeout branch has an unrecognised shape (%s)", other)
+	}
+	hf.retryStops = stops
+	return hf, nil
 }
+
+// ---------------------------------------------------------------- output
 
 func bset(m map[string]bool, keys ...string) string {
 	var out []string
@@ -815,21 +1811,20 @@ func bset(m map[string]bool, keys ...string) string {
 }
 
 func genReplyTypes(c *Ctx) (string, error) {
+	a := &an{c: c}
+	a.collectDefs()
+	if err := a.setup(); err != nil {
+		return "", err
+	}
+	// the client session type: the struct with a field of an interface type that has a send-like method
 	var rows []*replyRow
 	for _, f := range c.Files {
 		for _, d := range f.Decls {
 			fd, ok := d.(*ast.FuncDecl)
-			if !ok || fd.Recv == nil || fd.Body == nil || len(fd.Recv.List) != 1 {
+			if !ok || fd.Recv == nil || fd.Body == nil || len(fd.Recv.List) != 1 || fd == a.sendFD {
 				continue
 			}
-			t := fd.Recv.List[0].Type
-			if s, ok := t.(*ast.StarExpr); ok {
-				t = s.X
-			}
-			if id, ok := t.(*ast.Ident); !ok || id.Name != "client" {
-				continue
-			}
-			row, err := clientMethod(c, fd)
+			row, err := a.clientMethod(fd)
 			if err != nil {
 				return "", err
 			}
@@ -839,26 +1834,18 @@ func genReplyTypes(c *Ctx) (string, error) {
 		}
 	}
 	if len(rows) == 0 {
-		return "", fmt.Errorf("no client method calling c.transport.send found")
+		return "", fmt.Errorf("no method calling the round tripper's send found")
 	}
 	sort.Slice(rows, func(i, j int) bool { return rows[i].reqType < rows[j].reqType })
-	panics, err := unknownTagPanics(c)
+	first, second, rerr, err := a.sendSelects()
 	if err != nil {
 		return "", err
 	}
-	first, second, rerr, err := sendSelects(c)
+	rc, ec, err := a.chanCaps()
 	if err != nil {
 		return "", err
 	}
-	rc, ec, err := chanCaps(c)
-	if err != nil {
-		return "", err
-	}
-	retryStops, err := readerRetry(c)
-	if err != nil {
-		return "", err
-	}
-	inline, guarded, err := ownerArms(c)
+	hf, err := a.handleAnalysis()
 	if err != nil {
 		return "", err
 	}
@@ -877,8 +1864,8 @@ func genReplyTypes(c *Ctx) (string, error) {
 	fmt.Fprintf(&b, "(* transport.send, first select: has case <-t.closed, <-ctx.Done(), t.requests <- req *)\nDefinition send_first_cases : bool * bool * bool := (%s).\n", bset(first, "closed", "ctx", "requests"))
 	fmt.Fprintf(&b, "(* transport.send, second select: has case <-t.closed, <-ctx.Done(), <-req.err, <-req.response *)\nDefinition send_second_cases : bool * bool * bool * bool := (%s).\n\n", bset(second, "closed", "ctx", "err", "response"))
 	fmt.Fprintf(&b, "(* newFcallRequest: buffer capacities of the response and err channels *)\nDefinition response_chan_cap : N := %d.\nDefinition err_chan_cap : N := %d.\n\n", rc, ec)
-	fmt.Fprintf(&b, "(* transport.handle: does the branch for a reply whose tag is not outstanding panic? *)\nDefinition unknown_tag_panics : bool := %v.\n", panics)
-	fmt.Fprintf(&b, "\n(* transport.handle, reader goroutine: does the retry-on-timeout branch stop once t.ctx is done? *)\nDefinition reader_retry_stops_when_done : bool := %v.\n", retryStops)
-	fmt.Fprintf(&b, "\n(* transport.handle: does the `case req := <-t.requests` arm call WriteFcall itself (true), or queue the\n   frame for the writer goroutine (false)?  In the latter case: does the `case w := <-failed` arm delete the\n   tag only if it still belongs to the failed request? *)\nDefinition owner_writes_inline : bool := %v.\nDefinition failed_arm_guarded : bool := %v.\n", inline, guarded)
+	fmt.Fprintf(&b, "(* transport.handle: does the branch for a reply whose tag is not outstanding panic? *)\nDefinition unknown_tag_panics : bool := %v.\n", hf.panics)
+	fmt.Fprintf(&b, "\n(* transport.handle, reader goroutine: does the retry-on-timeout branch stop once t.ctx is done? *)\nDefinition reader_retry_stops_when_done : bool := %v.\n", hf.retryStops)
+	fmt.Fprintf(&b, "\n(* transport.handle: does the `case req := <-t.requests` arm call WriteFcall itself (true), or queue the\n   frame for the writer goroutine (false)?  In the latter case: does the `case w := <-failed` arm delete the\n   tag only if it still belongs to the failed request? *)\nDefinition owner_writes_inline : bool := %v.\nDefinition failed_arm_guarded : bool := %v.\n", hf.inline, hf.guarded)
 	return b.String(), nil
 }
